@@ -845,3 +845,11 @@ mod tests {
     assert_eq!(Some(300_000_000), FeelNumber::from_i128(300_000_000).to_u64());
   }
 }
+
+#[cfg(dmntk_verif)]
+impl FeelNumber {
+  /// Verification hook: raw parts `(finite, negative, 34 coefficient digits, exponent)`.
+  pub fn verif_parts(&self) -> (bool, bool, Vec<u8>, i32) {
+    dec_verif_parts(&self.0)
+  }
+}
